@@ -431,7 +431,7 @@ def judge_extract(ctx, a, var, r, outdir, want, label_sub="extract"):
                              "first_diff": next((i for i, (x, y) in enumerate(zip(got[k], data)) if x != y), min(len(got[k]), len(data)))})
     if missing or diff or extra:
         viols.append(("roundtrip-differs", f"`mpq extract` ({var['opt']}) exited 0 but the extracted tree differs from the input: missing={missing[:4]} differing={[d['name'] for d in diff][:4]} unexpected={extra[:4]}",
-                      {"cmd": short_cmd(var["cmd"], ctx.scratch), "archive": a.get("desc"), "missing": missing, "differing": diff[:6], "unexpected": extra[:6], "stdout": r["out"][-300:]}))
+                      {"cmd": short_cmd(var["cmd"], ctx.scratch), "archive": a.get("desc"), "missing": missing[:20], "n_missing": len(missing), "differing": diff[:6], "unexpected": extra[:6], "stdout": r["out"][-300:]}))
     return viols, cnt
 
 
@@ -505,6 +505,22 @@ def slice_dirs(ctx, sink, filesets):
         names = DIR_NAMES[: len(files)]
         spec.append({"path": os.path.join(d, f"dirs{i}.mpq"), "version": ver, "compression": comp, "files": [{"name": n, "src": f["path"]} for n, f in zip(names, files)]})
         model.append({n: f["data"] for n, f in zip(names, files)})
+    # archives with more than 1000 entries (the library extracts long name lists in batches on another code path): counts
+    # just above 1000 and not multiples of the batch sizes the tool picks
+    many_src = os.path.join(d, "many-src")
+    os.makedirs(many_src, exist_ok=True)
+    rnd = random.Random(f"c20-{ctx.seed}-many")
+    for mi, count in enumerate([1010, 1026] + ([2049, 5013] if ctx.thorough else [])):
+        files = {}
+        for k in range(count):
+            nm = f"Many\\d{k % 7}\\f{mi}_{k:05}.txt"
+            data = (f"entry {k} of {count} " + "x" * rnd.randrange(0, 40)).encode() + bytes(rnd.randrange(256) for _ in range(rnd.randrange(0, 6)))
+            src = os.path.join(many_src, f"m{mi}_{k:05}")
+            with open(src, "wb") as fh:
+                fh.write(data)
+            files[nm] = (src, data)
+        spec.append({"path": os.path.join(d, f"many{mi}.mpq"), "version": 1 + mi % 4, "compression": ["zlib", "none"][mi % 2], "files": [{"name": n, "src": v[0]} for n, v in files.items()]})
+        model.append({n: v[1] for n, v in files.items()})
     sp = os.path.join(d, "spec.json")
     json.dump(spec, open(sp, "w"))
     j = os.path.join(d, "build.jsonl")
@@ -524,6 +540,13 @@ def slice_dirs(ctx, sink, filesets):
         a = {"idx": 1000 + i, "path": s["path"], "desc": {"built_by": "library", "version": f"v{s['version']}", "compression": s["compression"], "names": list(model[i])}, "model": model[i]}
         archives.append(a)
         names = list(model[i])
+        if len(names) > 1000:
+            a["desc"]["names"] = names[:3] + [f"... {len(names)} entries"]
+            jobs.append((a, {"opt": "many-preserve", "args": ["-p"], "specials": True}, {n.replace("\\", "/"): b for n, b in model[i].items()}))
+            jobs.append((a, {"opt": "many-flat-threads2", "args": ["--threads", "2"], "specials": True}, {n.split("\\")[-1]: b for n, b in model[i].items()}))
+            res.add_counter("archives_with_more_than_1000_entries", 1)
+            archives.pop()  # not handed to the later slices (their command lines name every entry)
+            continue
         jobs.append((a, {"opt": "dirs-preserve", "args": ["-p", "--threads", "2"], "specials": True}, {n.replace("\\", "/"): b for n, b in model[i].items()}))
         jobs.append((a, {"opt": "dirs-flat", "args": [], "specials": True}, {n.split("\\")[-1]: b for n, b in model[i].items()}))
         jobs.append((a, {"opt": "dirs-names-preserve", "args": ["-p", "--"] + names[:3], "specials": False}, {n.replace("\\", "/"): model[i][n] for n in names[:3]}))
